@@ -148,9 +148,10 @@ def python_source(cy_source):
             params = [p.strip().split()[-1].lstrip("*") for p in m.group(3).split(",") if p.strip()]
             out.append("%sdef %s(%s):" % (m.group(1), m.group(2), ", ".join(params)))
             continue
-        m = re.match(r"^(\s*)cdef\s+[\w ]+?\s+(\w+)\s*=\s*(.*)$", line)
+        m = re.match(r"^(\s*)cdef\s+[\w ]+?\s+(\w+\s*=.*)$", line)
         if m:
-            out.append("%s%s = %s" % (m.group(1), m.group(2), m.group(3)))
+            # `cdef long i = -99, n = 0` -> `i = -99; n = 0` (initialisers of the catalogue are plain literals)
+            out.append(m.group(1) + "; ".join(d.strip() for d in m.group(2).split(",")))
             continue
         if re.match(r"^\s*cdef\s+[\w ]+?\s+\w+(\s*,\s*\w+)*\s*$", line):
             out.append(re.match(r"^(\s*)", line).group(1) + "pass")
